@@ -115,6 +115,16 @@ def run(ctx):
     gen = pyfun_util.check_generated(ctx, PID)
     ctx.log("generated arithmetic (get_fragments, on_data_received):", "ok" if gen["ok"] else "BROKEN: " + str(gen["what"])[:200],
             "; identical to snapshot:", ctx.cov["pyfun"]["identical_to_snapshot"])
+    # self-test of the translator on synthetic functions (grammar coverage + functions it must refuse)
+    rc_st, out_st = C.sh(["python3", os.path.join(C.VERIF, "harness", "translators", "pyfun_selftest.py")], timeout=300)
+    ctx.cov["obligations"] += 1
+    ctx.cov["pyfun"]["selftest"] = [l for l in out_st.splitlines() if l.startswith(("refused", "accepted", "FAIL", "NOT"))]
+    if rc_st == 0:
+        ctx.cov["discharged"] += 1
+    else:
+        gen["ok"] = False
+        gen["what"] = gen["what"] or "self-test of harness/translators/pyfun.py fails"
+        gen["detail"] += "\n[pyfun] translator self-test:\n" + out_st[-1500:]
     ctx.cov["trusted_base"].append(
         "the arithmetic of get_fragments / on_data_received is NOT trusted to the hand-written model: it is regenerated from the source by "
         "harness/translators/pyfun.py on every run and proved equal to the model (PropertyGen.v); trusted there: the translator's reading of "
